@@ -3,7 +3,7 @@
 From Coq Require Import String.
 From Coq Require Import List NArith.
 From Coq.Strings Require Import Byte.
-From Borsh Require Import Bytes Result Ty Ser De Entry Schema SchemaFns SchemaSpec ArrayGuard Io Spec SchemaOf SchemaDec WithSchema.
+From Borsh Require Import Bytes Result Ty Ser De Entry Schema SchemaFns SchemaSpec ArrayGuard Io Spec SchemaOf SchemaDec WithSchema Cost.
 From Borsh Require Import Discr Item DeriveCheck Derive.
 Require Import ExtrOcamlBasic.
 Extraction Language OCaml.
@@ -22,4 +22,5 @@ Extraction "model.ml"
   decr try_from_reader_count to_writer sw_write_all fw_write_all vw_write_all run_ops observable io_std io_shim world0
   spec_enc refusable emit_len
   schema_of insert lookup has_schema decl_of sdec erase prim_decl prim_schema_width prim_width all_prims N.of_nat
-  ty_container container_to_val val_to_container try_to_vec_with_schema try_from_slice_with_schema.
+  ty_container container_to_val val_to_container try_to_vec_with_schema try_from_slice_with_schema
+  dec_cost dec_trace fam wire_pos.
